@@ -321,9 +321,9 @@ func runCase(c *Case, d *driver, opts runOpts) (res caseResult) {
 	var stepBytes []byte
 	diverged := map[string]bool{} // projections and rows on which the two sides already disagree
 	sOff := false                 // the run-level comparison has been given up for this case
-	var lastModelS map[string]string
+	var lastModelS, lastModelQ map[string]string
 	compare := func(cmd string, tags *string) bool {
-		lastModelS = nil
+		lastModelS, lastModelQ = nil, nil
 		evFrom, wrFrom := im.evMark, im.wrMark
 		pre := prevSnap
 		io, post := im.observe(false)
@@ -341,7 +341,7 @@ func runCase(c *Case, d *driver, opts runOpts) (res caseResult) {
 			if len(mo.tags) > 0 {
 				*tags = strings.Join(mo.tags, ",")
 			}
-			lastModelS = mo.srows
+			lastModelS, lastModelQ = mo.srows, mo.qrows
 			if mo.X != "" {
 				addF(finding{Step: step, Kind: "framing", Clause: "G", Tags: *tags, Detail: mo.X + " " + io.G})
 				// the two sides no longer agree on where the sequences end, so the steps that follow
@@ -419,6 +419,32 @@ func runCase(c *Case, d *driver, opts runOpts) (res caseResult) {
 				if got := fmt.Sprintf("%d:%s", row.Cached, runsStr(row.Runs)); got != want {
 					addF(finding{Step: step, Kind: "diverge", Clause: "S", Tags: *tags,
 						Detail: fmt.Sprintf("stored runs of row %d of buffer %d: impl[%s] model[%s]", y, b, got, want)})
+					sOff = true
+					break
+				}
+			}
+		}
+		if useModel && !res.Diverged && !sOff && c.Mode == 0 && c.Grid {
+			// the five per-cell arrays of every row the array-level model terminal changed in this
+			// step (lean/TM/GridTerm.lean) against the real grid buffer's arrays
+			for key, want := range lastModelQ {
+				var b, y int
+				fmt.Sscanf(key, "%d %d", &b, &y)
+				if b < 0 || b > 1 || y < 0 || y >= len(post.Screens[b].Rows) {
+					continue
+				}
+				cells := post.Screens[b].Rows[y].Cells
+				parts := make([]string, len(cells))
+				for k, cl := range cells {
+					parts[k] = fmt.Sprintf("%d,%s,%d,%d,%x.%x.%x", cl.Rune, hexOrDash([]byte(cl.Text)), cl.Width, b2i(cl.Cont), cl.Style[0], cl.Style[1], cl.Style[2])
+				}
+				got := strings.Join(parts, "_")
+				if got == "" {
+					got = "-"
+				}
+				if got != want {
+					addF(finding{Step: step, Kind: "diverge", Clause: "Q", Tags: *tags,
+						Detail: fmt.Sprintf("cell arrays (rune,text,width,cont,style) of row %d of buffer %d: impl[%s] model[%s]", y, b, truncate(got, 900), truncate(want, 900))})
 					sOff = true
 					break
 				}
